@@ -16,10 +16,11 @@ STR_CODE_FORMS = ['1;31', '31;1', '38;5;214', '38;2;1;2;3', '48;5;21', '4;58;5;9
 FN_FORMS = ['rgb(1,2,3)', 'bg_rgb(0x10, 0x20, 0x30)', 'ul_rgb(0xFF00FF)', 'dul_color256(7)', 'fg_colour256(0x10)',
             'rgb([300,2,3])', 'color256(255)']
 VERBATIM_WF = ['[1;31', '[38;5;214', '[99', '[1', '[31', '[34', '[0']          # well-formed groups (99: unknown code)
-VERBATIM_ODD = ['[38;5', '[38;2;1', '[m31', '[ 1', '[+1', '[1;', '[;', '[38;5;256']
+VERBATIM_ODD = ['[38;5', '[38;2;1', '[m31', '[ 1', '[+1', '[1;', '[;', '[38;5;256', '[1~', '[4;31@', '[1?']     # ~ and @: both ends of the final-byte range
 MEMBERS = ['BOLD', 'FAINT', 'ITALIC', 'RED', 'BLUE', 'BG_RED', 'UNDERLINE', 'DOUBLE_UNDERLINE', 'NO_BOLD_FAINT',
            'FG_ORANGE', 'UL_RED', 'DUL_GRAY', 'BG_INDIAN_RED', 'FG_DEFAULT', 'GREEN']
 SETTING_TEXTS = ['1', '31', '34', '2', '38;5;214', '22', '4', '21']
+SETTING_TEXTS_ODD = ['1;4m', '4m', '1~', '1;31', '38;5', '1;;4']      # invalid / unparsable AnsiSetting objects
 BAD_FORMS = [['str', 'nosuchname'], ['int', -1], ['str', 'rgb(1,2)'], ['str', 'rgb(zz)'], ['other', True],
              ['other', False], ['str', '-5'], ['list', [['str', 'red'], ['selfref']]], ['str', '['], ['str', 'rgb(1,2,x)']]
 
@@ -61,7 +62,7 @@ class Gen:
         if k < 0.72:
             return ['member', r.choice(MEMBERS)]
         if k < 0.82:
-            return ['setting', r.choice(SETTING_TEXTS)]
+            return ['setting', r.choice(SETTING_TEXTS + SETTING_TEXTS_ODD if self.odd and r.random() < 0.3 else SETTING_TEXTS)]
         if k < 0.94 or not self.odd:
             return ['str', r.choice(VERBATIM_WF)]
         return ['str', r.choice(VERBATIM_ODD)]
